@@ -101,11 +101,50 @@ func initKeys() {
 
 // ------------------------------------------------------------------ events (JSON: replayable)
 
-type embedSpec struct {
-	Key    int    `json:"key"`
-	Rel    string `json:"rel"`    // capabilityInvocation | assertionMethod
-	Prefix string `json:"prefix"` // own | foreign
-	Frag   string `json:"frag"`   // thumb | other
+// extraEntry is one more entry (for key 3, or a service "svc-x") added to an otherwise valid document, with a chosen
+// form of its id.
+type extraEntry struct {
+	Kind  string `json:"kind"`          // vm (unreferenced verificationMethod entry) | embedded (method embedded in Rel) | svc
+	Rel   string `json:"rel,omitempty"` // embedded: the verification relationship
+	IDVar string `json:"idVar"`         // own | one of idVariants
+	Frag  string `json:"frag,omitempty"` // keys: thumb | other (non-thumbprint) | kid (non-thumbprint, repeated as JWK kid member)
+}
+
+// idVariants: forms of an entry id whose DID-URL-without-fragment is NOT the document's DID (or that have no usable fragment).
+var idVariants = []string{"other-known-did", "unknown-did", "extra-characters", "path", "query", "param", "upper-cased-id", "colon-segment",
+	"empty-fragment", "fragment-only", "two-hashes", "no-fragment"}
+
+func entryID(variant string, docIdx int, frag string) string {
+	id := dids[docIdx].String()
+	switch variant {
+	case "own":
+		return id + "#" + frag
+	case "other-known-did":
+		return dids[(docIdx+1)%nDIDs].String() + "#" + frag
+	case "unknown-did":
+		return foreign + "#" + frag
+	case "extra-characters":
+		return id + "evil#" + frag
+	case "path":
+		return id + "/path#" + frag
+	case "query":
+		return id + "?a=b#" + frag
+	case "param":
+		return id + ";p=1#" + frag
+	case "upper-cased-id":
+		return "did:nuts:" + strings.ToUpper(dids[docIdx].ID) + "#" + frag
+	case "colon-segment":
+		return id + ":x#" + frag
+	case "empty-fragment":
+		return id + "#"
+	case "fragment-only":
+		return "#" + frag
+	case "two-hashes":
+		return id + "#" + frag + "#x"
+	case "no-fragment":
+		return id
+	}
+	panic("id variant " + variant)
 }
 
 type docSpec struct {
@@ -116,9 +155,9 @@ type docSpec struct {
 	Ctrl    []int      `json:"ctrl,omitempty"`
 	Svc     bool       `json:"svc,omitempty"`
 	Deact   bool       `json:"deact,omitempty"`
-	Invalid string     `json:"invalid,omitempty"` // named defect; "" = none; "embedded-valid" = well-formed embedded method
-	Embed   *embedSpec `json:"embed,omitempty"`
-	Name    string     `json:"name"`
+	Invalid string      `json:"invalid,omitempty"` // label of the defect the harness built in ("" = none); the model judges the payload, not this label
+	Extra   *extraEntry `json:"extra,omitempty"`
+	Name    string      `json:"name"`
 }
 
 type event struct {
@@ -202,20 +241,26 @@ func buildPayload(d docSpec) []byte {
 		return out
 	}
 	rel := map[string][]any{"capabilityInvocation": refs(d.CapInv), "assertionMethod": refs(d.Assert)}
-	if e := d.Embed; e != nil {
-		base, frag := id, keyFrag[e.Key]
-		if e.Prefix == "foreign" {
-			base = foreign
-		}
-		if e.Frag == "other" {
+	if len(d.Assert) > 0 {
+		rel["authentication"] = refs(d.Assert[:1])
+	}
+	if x := d.Extra; x != nil && x.Kind != "svc" {
+		frag := keyFrag[3]
+		var keyJSON any = pubMap[3]
+		switch x.Frag {
+		case "other":
 			frag = "key-1"
-		}
-		var keyJSON any = pubMap[e.Key]
-		if e.Frag == "kid" {
+		case "kid":
 			frag = spoofedFragment
-			keyJSON = withKid(pubMap[e.Key], spoofedFragment)
+			keyJSON = withKid(pubMap[3], spoofedFragment)
 		}
-		rel[e.Rel] = append(rel[e.Rel], map[string]any{"id": base + "#" + frag, "type": "JsonWebKey2020", "controller": id, "publicKeyJwk": keyJSON})
+		m := map[string]any{"id": entryID(x.IDVar, d.DID, frag), "type": "JsonWebKey2020", "controller": id, "publicKeyJwk": keyJSON}
+		if x.Kind == "embedded" {
+			rel[x.Rel] = append(rel[x.Rel], m)
+		} else {
+			vms = append(vms, m)
+			doc["verificationMethod"] = vms
+		}
 	}
 	for k, v := range rel {
 		if len(v) > 0 {
@@ -248,6 +293,9 @@ func buildPayload(d docSpec) []byte {
 		ss = append(ss, svc(foreign+"#svc-x", "type-x"))
 	case "svc-no-fragment":
 		ss = append(ss, svc(id, "type-x"))
+	}
+	if x := d.Extra; x != nil && x.Kind == "svc" {
+		ss = append(ss, svc(entryID(x.IDVar, d.DID, "svc-x"), "type-x"))
 	}
 	if len(ss) > 0 {
 		doc["service"] = ss
@@ -300,22 +348,43 @@ func docVariants(i int) []docSpec {
 		d.Invalid, d.Name = df, "defect:"+df
 		out = append(out, d)
 	}
-	for _, rel := range []string{"capabilityInvocation", "assertionMethod"} {
-		for _, pf := range []string{"own", "foreign"} {
-			for _, fr := range []string{"thumb", "other", "kid"} {
-				d := docSvc(i)
-				d.Embed = &embedSpec{Key: 3, Rel: rel, Prefix: pf, Frag: fr}
-				d.Invalid = "embedded-" + rel + "-" + pf + "-" + fr
-				if pf == "own" && fr == "thumb" {
-					d.Invalid = "embedded-valid"
-				}
-				d.Name = "defect:" + d.Invalid
-				out = append(out, d)
-			}
+	extra := func(x extraEntry) {
+		d := docSvc(i)
+		d.Extra = &x
+		label := "extra-" + x.Kind
+		if x.Rel != "" {
+			label += "-" + x.Rel
+		}
+		label += "-id:" + x.IDVar
+		if x.Frag != "" {
+			label += "-frag:" + x.Frag
+		}
+		if x.IDVar == "own" && (x.Frag == "thumb" || x.Kind == "svc") {
+			d.Name = "valid:" + label
+		} else {
+			d.Invalid, d.Name = label, "defect:"+label
+		}
+		out = append(out, d)
+	}
+	// every entry kind x every id variant (keys keep their thumbprint as fragment), + the well-formed form
+	for _, v := range append([]string{"own"}, idVariants...) {
+		extra(extraEntry{Kind: "vm", IDVar: v, Frag: "thumb"})
+		extra(extraEntry{Kind: "svc", IDVar: v})
+		for _, rel := range embedRels {
+			extra(extraEntry{Kind: "embedded", Rel: rel, IDVar: v, Frag: "thumb"})
+		}
+	}
+	// embedded methods with the document's DID but a fragment that is not the thumbprint
+	for _, rel := range embedRels {
+		for _, fr := range []string{"other", "kid"} {
+			extra(extraEntry{Kind: "embedded", Rel: rel, IDVar: "own", Frag: fr})
 		}
 	}
 	return out
 }
+
+// embedRels: relationships in which methods are embedded (quick: three, thorough: all five)
+var embedRels = []string{"capabilityInvocation", "assertionMethod", "authentication"}
 
 // ------------------------------------------------------------------ real instance
 
@@ -664,7 +733,7 @@ func (in *inst) probes() []event {
 			out = append(out, event{Kind: "create", Doc: d, SignKey: j, Prevs: "latest", Sigt: "now"})
 		}
 		for _, d := range docVariants(i) {
-			if d.Invalid != "" {
+			if d.Invalid != "" || d.Extra != nil {
 				out = append(out, event{Kind: "create", Doc: d, SignKey: i, Prevs: "latest", Sigt: "now"})
 			}
 		}
@@ -765,9 +834,7 @@ func judge(r *ev.Run, in *inst, hist []event, e event, accepted bool, err error,
 	rcase := map[string]any{"history": hist, "event": e}
 	tier2 := e.Prevs == "latest" && e.Sigt == "now"
 	defect := e.Doc.Invalid
-	if defect == "embedded-valid" {
-		defect = ""
-	}
+	wf, why := wellFormed(e.Doc)
 	var modelAccepts bool
 	switch {
 	case e.Kind == "create":
@@ -781,22 +848,33 @@ func judge(r *ev.Run, in *inst, hist []event, e event, accepted bool, err error,
 	if accepted {
 		cnt.accepted++
 	}
+	if x := e.Doc.Extra; accepted && x != nil && x.Kind == "svc" && x.IDVar == "two-hashes" {
+		r.Observation("service-id-whose-fragment-contains-a-hash-sign-is-accepted (admitted by the reference predicate: the part before the first '#' is the document DID)", e.String())
+	}
 	switch {
 	case accepted && !modelAccepts:
 		switch {
-		case defect == "vm-jwk-kid-equals-fragment" || (e.Doc.Embed != nil && e.Doc.Embed.Frag == "kid" && e.Doc.Embed.Prefix == "own"):
+		case !wf && e.Doc.Extra != nil && e.Doc.Extra.IDVar != "own":
+			x := e.Doc.Extra
+			kind := map[string]string{"vm": "verificationMethod", "svc": "service", "embedded": "embedded-method"}[x.Kind]
+			r.Violation("C09|accepted-malformed|entry-id-not-document-did|"+kind+"|"+x.IDVar,
+				fmt.Sprintf("%s is accepted although the id of a %s entry %s(%q) is not <DID of the document>#<fragment>: %s (history of %d events)",
+					e, kind, x.Rel, entryID(x.IDVar, e.Doc.DID, "…"), why, len(hist)), rcase)
+		case !wf && (defect == "vm-jwk-kid-equals-fragment" || (e.Doc.Extra != nil && e.Doc.Extra.Frag == "kid")):
 			where := "verificationMethod"
-			if e.Doc.Embed != nil {
+			if e.Doc.Extra != nil {
 				where = "embedded-in-relationship"
 			}
 			r.Violation("C09|accepted-malformed|jwk-kid-replaces-thumbprint|"+where,
 				fmt.Sprintf("%s is accepted although the id fragment of a verification method (%s) is not the thumbprint of its key: the publicKeyJwk carries a \"kid\" member equal to the fragment, which the validator takes for the thumbprint (history of %d events)", e, where, len(hist)), rcase)
-		case defect != "" && strings.HasPrefix(defect, "embedded-"):
-			r.Violation("C09|accepted-malformed|embedded-method|"+e.Doc.Embed.Prefix+"-prefix-"+e.Doc.Embed.Frag+"-fragment",
-				fmt.Sprintf("%s is accepted although the document is not well-formed: a verification method embedded in %s with %s DID prefix and %s fragment escapes the Nuts id rules (history of %d events)",
-					e, e.Doc.Embed.Rel, e.Doc.Embed.Prefix, map[string]string{"thumb": "thumbprint", "other": "non-thumbprint", "kid": "non-thumbprint (jwk kid = fragment)"}[e.Doc.Embed.Frag], len(hist)), rcase)
-		case defect != "":
-			r.Violation("C09|accepted-malformed|"+e.Kind+"|"+defect, fmt.Sprintf("%s is accepted although the document has defect %q", e, defect), rcase)
+		case !wf && e.Doc.Extra != nil:
+			r.Violation("C09|accepted-malformed|embedded-method|own-prefix-"+e.Doc.Extra.Frag+"-fragment",
+				fmt.Sprintf("%s is accepted although the document is not well-formed: a verification method embedded in %s: %s (history of %d events)", e, e.Doc.Extra.Rel, why, len(hist)), rcase)
+		case !wf:
+			if defect == "" {
+				defect = "unlabelled"
+			}
+			r.Violation("C09|accepted-malformed|"+e.Kind+"|"+defect, fmt.Sprintf("%s is accepted although the document is not well-formed: %s", e, why), rcase)
 		case e.Kind == "create":
 			r.Violation("C09|create|accepted-thumbprint-mismatch", fmt.Sprintf("%s is accepted although the DID is not the thumbprint of the embedded key", e), rcase)
 		case tier2:
@@ -921,7 +999,7 @@ func TestVerifC09(t *testing.T) {
 		"hand control to the next DID, deactivate, reset; for DID 0 also add key, assertion-only key, controller + own capInv, self + controller, two controllers), " +
 		"de-duplicated by the per-DID sequences of stored documents; in every state the whole probe alphabet is offered to the real callback: creations of every DID " +
 		"with every one of 4 embedded keys and with every defective document, updates of every DID signed by every (kid DID, key) pair x prevs {latest, previous, first, unrelated} " +
-		"x signing time {now, one hour before everything}, and an authorised signer with every document variant (10 valid templates, 12 defects - one per validator rule, incl. a JWK whose kid member repeats a non-thumbprint fragment and a method without JWK - and 12 embedded-method variants); " +
+		"x signing time {now, one hour before everything}, and an authorised signer with every document variant (10 valid templates; 12 whole-document defects, one per validator rule, incl. a JWK whose kid member repeats a non-thumbprint fragment and a method without JWK; and for every entry kind - verificationMethod entry, method embedded in each relationship, service - the well-formed id and 12 malformed ids: DID of another known / an unknown DID, document DID + extra characters / path / query / param / colon segment, upper-cased id, empty fragment, fragment only, two '#', no fragment; embedded methods also with non-thumbprint fragments); " +
 		"a case = (history, offered event)")
 	r.Assume("signature verification of the DAG is not part of the callback: the harness signs with the key that the kid names, so the signature is valid whenever the kid resolves")
 	r.Assume("the model follows the node's accept decisions for building events (they are accepted by model and node alike, else the branch ends)")
@@ -947,7 +1025,20 @@ func TestVerifC09(t *testing.T) {
 	maxDepth := 4
 	if r.Thorough() {
 		maxDepth = 5
+		embedRels = []string{"capabilityInvocation", "assertionMethod", "authentication", "keyAgreement", "capabilityDelegation"}
 	}
+	// the labels the harness gives its documents agree with the reference predicate evaluated on the payload as sent
+	// (the only documented exception: a service id with two '#', which the predicate admits - see model.go)
+	for i := 0; i < nDIDs; i++ {
+		for _, d := range docVariants(i) {
+			wf, why := wellFormedPayload(buildPayload(d)) // the full predicate, also for the plain templates (fast path of wellFormed)
+			labelled := d.Invalid == ""
+			if wf != labelled && !(d.Extra != nil && d.Extra.Kind == "svc" && d.Extra.IDVar == "two-hashes") {
+				t.Fatalf("harness: document %q: label says well-formed=%v, reference predicate says %v (%s)", d.Name, labelled, wf, why)
+			}
+		}
+	}
+	r.Bound("document_variants_per_did", len(docVariants(0)))
 	var cnt counters
 
 	// vacuity guards: an honest creation and an honest update are accepted, a foreign-key creation is not, and the
